@@ -40,9 +40,11 @@ const (
 	hTP4 = 5
 	hTList  = 6 // hList
 	hTSlice = 7 // []int
+	hTPtr0  = 8 // *hP0 (unnamed type)
+	hTPtr1  = 9 // *hP1 (unnamed type)
 )
 
-var hTypeNames = []string{"P0", "P1", "P2", "I", "P3", "P4", "List", "[]int"}
+var hTypeNames = []string{"P0", "P1", "P2", "I", "P3", "P4", "List", "[]int", "*P0", "*P1"}
 
 func hType(t int) reflect.Type {
 	switch t {
@@ -60,6 +62,10 @@ func hType(t int) reflect.Type {
 		return reflect.TypeOf(hList(nil))
 	case hTSlice:
 		return reflect.TypeOf([]int(nil))
+	case hTPtr0:
+		return reflect.TypeOf((*hP0)(nil))
+	case hTPtr1:
+		return reflect.TypeOf((*hP1)(nil))
 	}
 	return reflect.TypeOf((*hI)(nil)).Elem()
 }
@@ -79,6 +85,10 @@ func hMk(t int, id int) interface{} {
 		return hList{id}
 	case hTSlice:
 		return []int{id}
+	case hTPtr0:
+		return &hP0{id}
+	case hTPtr1:
+		return &hP1{id}
 	}
 	return hP2{id}
 }
@@ -103,6 +113,14 @@ func hUnpack(v interface{}) (int, int) {
 	case []int:
 		if len(x) == 1 {
 			return hTSlice, x[0]
+		}
+	case *hP0:
+		if x != nil {
+			return hTPtr0, x.ID
+		}
+	case *hP1:
+		if x != nil {
+			return hTPtr1, x.ID
 		}
 	}
 	return -1, 0
@@ -212,6 +230,10 @@ type hWorld struct {
 
 	// provFinding: classification (known-finding id) attached to provenance violations
 	provFinding string
+
+	// EmptySetNotNil: "no outputs" of a built function is NewValueSet(empty list) (a
+	// marker-only struct result) instead of a nil set
+	EmptySetNotNil bool
 
 	// NilPtrOnFail: a failing *struct-form function returns a nil pointer next to its error
 	NilPtrOnFail bool
@@ -445,7 +467,7 @@ func (w *hWorld) hBuild(f hFuncSpec, opts ...Arg) (*Func, error) {
 			return nil, err
 		}
 		var out *ValueSet
-		if len(ovs) > 0 {
+		if len(ovs) > 0 || w.EmptySetNotNil {
 			// (an empty list would give a marker-only struct result; "no outputs" is a nil set)
 			out, err = NewValueSet(ovs)
 			if err != nil {
@@ -653,15 +675,16 @@ func (w *hWorld) hBuildAllAsDefaults() bool {
 //	4 F-iface names {"",a}, types {P0,P2,I}, no subtypes
 //	5 F-chain types {P0,P1,P2,P3,P4} (interchangeable: canonical first-use order is assumed), no names, no subtypes
 //	6 F-tsub  types {P0,P1,P2} (canonical order), no names, subtypes {"",s,t}
+//	9 F-ptr   names {"",a}, UNNAMED types {*P0, *P1, []int} (Name() and PkgPath() are empty for all of them)
 //	8 F-assign names {"",a}, types {P0, hList (defined, underlying []int), []int}: assignable but different types
 //	7 F-nsub  names {"",a,b}, types {P0,P1}, subtypes {"",s} on type P0 only... (= F-full with canonical type order)
-var hNamePool = [][]string{{""}, {"", "a", "b"}, {"", "a"}, {"", "a", "b"}, {"", "a"}, {""}, {""}, {"", "a", "b"}, {"", "a"}}
-var hTypePool = [][]int{{hTP0, hTP1, hTP2, hTI}, {hTP0, hTP1}, {hTP0}, {hTP0, hTP1}, {hTP0, hTP2, hTI}, {hTP0, hTP1, hTP2, hTP3, hTP4}, {hTP0, hTP1, hTP2}, {hTP0, hTP1}, {hTP0, hTList, hTSlice}}
-var hSubPool = [][]string{{""}, {""}, {"", "s", "S"}, {"", "s"}, {""}, {""}, {"", "s", "S"}, {"", "s"}, {""}}
+var hNamePool = [][]string{{""}, {"", "a", "b"}, {"", "a"}, {"", "a", "b"}, {"", "a"}, {""}, {""}, {"", "a", "b"}, {"", "a"}, {"", "a"}}
+var hTypePool = [][]int{{hTP0, hTP1, hTP2, hTI}, {hTP0, hTP1}, {hTP0}, {hTP0, hTP1}, {hTP0, hTP2, hTI}, {hTP0, hTP1, hTP2, hTP3, hTP4}, {hTP0, hTP1, hTP2}, {hTP0, hTP1}, {hTP0, hTList, hTSlice}, {hTPtr0, hTPtr1, hTSlice}}
+var hSubPool = [][]string{{""}, {""}, {"", "s", "S"}, {"", "s"}, {""}, {""}, {"", "s", "S"}, {"", "s"}, {""}, {""}}
 
 // families whose types are interchangeable plain structs: labels are drawn in
 // canonical (first-use) order so that the solver prunes relabelled duplicates
-var hCanonTypes = []bool{false, false, false, false, false, true, true, true, false}
+var hCanonTypes = []bool{false, false, false, false, false, true, true, true, false, false}
 
 // hMaxType is the highest pool position used so far in the world being drawn.
 var hMaxType = -1
